@@ -91,7 +91,6 @@ func showExpr(e *expr.Expression) string {
 	return fmt.Sprintf("(%d %s %s %d %d)", int(e.Op), showValue(e.Left), showValue(e.Right), int64(math.Float64bits(bp)), fd)
 }
 
-var interfered = false
 var hangs = 0
 
 const maxHangs = 3
@@ -172,7 +171,6 @@ var interfering = "zq:17 AND (yq:w*y OR NOT xq:[2.5 TO *]) AND vq:(p OR q) AND u
 func interfere() {
 	defer func() { recover() }()
 	if ex, err := lucene.Parse(interfering); err == nil && ex != nil {
-		interfered = true
 		pg.RenderParam(ex)
 		json.Marshal(ex)
 	}
